@@ -188,6 +188,9 @@ fn strategy_one<T: SElem + num_traits::ToPrimitive, B: BinsBuildingStrategy<Elem
     o.insert("covered".into(), json!(inbin.iter().sum::<i64>()));
     if !T::IS_FLOAT {
         if let Some(raw) = edges.iter().map(|e| e.raw_i()).collect::<Option<Vec<i64>>>() { o.insert("raw".into(), json!(raw)); }
+        if let (Some(mn), Some(mx)) = (vals.iter().min().and_then(|v| v.raw_i()), vals.iter().max().and_then(|v| v.raw_i())) {
+            o.insert("mn".into(), json!(mn)); o.insert("mx".into(), json!(mx));
+        }
     } else {
         // equal width at the quantum: max |d_i - d_0| / d_0 in units of 2^-20
         let f: Vec<f64> = edges.iter().map(|e| num_traits::ToPrimitive::to_f64(e).unwrap()).collect();
@@ -298,7 +301,7 @@ pub fn gen(seed: u64, count: usize, tier: &str, params: &Params) -> Vec<Value> {
                 let d = rng.range(1, 3) as usize;
                 let axes: Vec<Vec<i64>> = (0..d).map(|_| random_edges(&mut rng, 5)).collect();
                 let idx: Vec<i64> = (0..d).map(|a| { let mut e = axes[a].clone(); e.sort(); e.dedup(); let len = (e.len() as i64 - 1).max(0);
-                    match rng.below(6) { 0 => len, 1 => len + 1, 2 => BIG, _ => if len > 0 { rng.range(0, len - 1) } else { 0 } } }).collect();
+                    match rng.below(8) { 0 => len, 1 => len + 1, 2 => BIG, 3 => BIG - 1 - rng.range(0, len.max(1)), _ => if len > 0 { rng.range(0, len - 1) } else { 0 } } }).collect();
                 cases.push(json!({"ev": "index", "ty": ty, "axes": axes, "idx": idx}));
             }
             _ => {
